@@ -150,6 +150,31 @@ def run(ctx):
                       model_reqs=lambda c: driver.req("toverride", c[2], c[3], c[0]),
                       nontrivial=lambda c, r: '"57"' in r,   # the wrapper W occurs: the override fired
                       describe=lambda c: (repr(c[1])[:200], c[2], c[3]), bucket=lambda c, r: c[2] + "/" + c[3])
+    # handlers attached AFTER the class (or another instance of it) has already been used: on an instance (`v.visit_K = fn`, the idiom the
+    # library's own tests use) and on the class; and the reverse order (an instrumented instance first, a plain one afterwards)
+    def seq_override(c):
+        w, nd, kind, how = c
+        Cls = type("Seq", (visitor.NodeTransformer,), {})
+        try:
+            Cls().visit(copy.deepcopy(nd))                       # prime: every kind of this tree is dispatched once without any handler
+            if how == "instance-after":
+                v = Cls(); setattr(v, "visit_" + kind, lambda n: W(n))
+                return enc(v.visit(nd))
+            if how == "class-after":
+                setattr(Cls, "visit_" + kind, lambda self, n: W(n))
+                return enc(Cls().visit(nd))
+            # "plain-after-instrumented": a second class, instrumented instance first, then a plain instance must be the identity
+            Cls2 = type("Seq2", (visitor.NodeTransformer,), {})
+            v = Cls2(); setattr(v, "visit_" + kind, lambda n: W(n)); v.visit(copy.deepcopy(nd))
+            return enc(Cls2().visit(nd))
+        except Exception as e:  # noqa
+            return "raise:" + type(e).__name__
+    seq = [(w, nd, k, how) for i, (w, nd) in enumerate(uniq[:: (2 if ctx.thorough else 9)]) for k in [KINDS[i % len(KINDS)], "Identifier", "Integer", "String"]
+           for how in ("instance-after", "class-after", "plain-after-instrumented")]
+    common.correspond(ctx, "transform-override-sequences", seq, real_fn=seq_override,
+                      model_reqs=lambda c: driver.req("toverride", c[2], "td", c[0]) if c[3] != "plain-after-instrumented" else driver.req("tgeneric", c[0]),
+                      nontrivial=lambda c, r: '"57"' in r or c[3] == "plain-after-instrumented", describe=lambda c: (repr(c[1])[:200], c[2], c[3]),
+                      bucket=lambda c, r: "seq/" + c[3])
     # structural equality: == on pairs including near-misses
     pairs = []
     for i in range(0, len(uniq) - 1, 2):
@@ -197,6 +222,15 @@ def run(ctx):
                 if r != spec:
                     found.append({"property": "C16", "input": repr(c[1]), "override_kind": c[2], "mode": c[3], "real_result": r[:2000],
                                   "specified": spec[:2000], "why": "override does not change exactly the nodes of its kind", "signature": "C16:override:" + c[2]})
+            elif name == "transform-override-sequences":
+                spec = driver.run_batch([driver.req("mapkind", c[2], "td", c[0])])[0] if c[3] != "plain-after-instrumented" else c[0]
+                if r != spec:
+                    found.append({"property": "C16", "input": repr(c[1]), "override_kind": c[2], "sequence": c[3], "real_result": r[:2000], "specified": spec[:2000],
+                                  "why": {"instance-after": "a handler attached to an instance after the class was used is not called for its kind",
+                                          "class-after": "a handler added to the class after it was used is not called for its kind",
+                                          "plain-after-instrumented": "a plain instance used after an instrumented one of the same class is not the identity"}[c[3]],
+                                  "signature": "C16:override-sequence:" + c[3],
+                                  "replay": "Cls = subclass of NodeTransformer; Cls().visit(tree); then attach visit_<kind> (instance / class) and visit again"})
             elif name == "structural-equality":
                 want = str(c[0] == c[2])
                 if r != want:
@@ -212,7 +246,7 @@ def run(ctx):
     return common.finish(
         ctx,
         rule="random ASTs of depth 0..4 over every node kind (lists in lists, optional lambdas, named parameters) + the parsed corpus; traces, "
-             "identity transform, one override per kind (recursing and non-recursing), == on equal/near-miss pairs, every shipped visitor on a deep "
+             "identity transform, one override per kind (recursing and non-recursing), handlers attached after the class was already used (instance / class / reverse order), == on equal/near-miss pairs, every shipped visitor on a deep "
              "copy with before/after comparison; non-trivial = the trace has more than one node / the override fired",
         assumptions=["non-mutation of Python objects and `==` are runtime facts: checked here on generated trees, not provable in a pure model",
                      "instrumentation is from outside (subclasses of NodeVisitor / NodeTransformer)"],
